@@ -8,7 +8,7 @@ import numpy as np
 
 from .a_hist1d import consecutive, pos_class
 from .a_pool import EXC
-from .embed import NAN, PosEmb, WEmb, feq, isnan
+from .embed import NAN, InputGuard, PosEmb, WEmb, feq, isnan
 from .replay import Adapter, Mismatch
 
 NONE_RET = (-7,)
@@ -25,6 +25,7 @@ class NDAdapter(Adapter):
         from physt.binnings import StaticBinning, NumpyBinning
         from physt.types import Histogram1D, Histogram2D, HistogramND
         self.physt = physt
+        self._we = we
         self.StaticBinning, self.NumpyBinning = StaticBinning, NumpyBinning
         self.H1, self.H2, self.HN = Histogram1D, Histogram2D, HistogramND
 
@@ -62,6 +63,7 @@ class NDAdapter(Adapter):
     def apply(self, real, action, args, pre):
         obs = {"exc": None, "ret": None}
         o = real
+        self._guard = guard = InputGuard()
         try:
             if action == "NewEmpty":
                 LL, ri, keep = args
@@ -80,12 +82,17 @@ class NDAdapter(Adapter):
                 wv = float(self.we.val(1))
                 fa = f if wv == 1 else f * wv
                 ea = e if wv == 1 else e * wv * wv
+                if self.we.name.startswith("narrow"):
+                    # narrow integer contents, scaled so that the largest cell just fits the type (errors are left to the
+                    # default; the caller's view leaves them out); the scale travels with the objects
+                    o["K"] = int(np.iinfo(self.we.kind).max // int(f.max()))
+                    fa, ea = (f * o["K"]).astype(self.we.kind), None
                 o["h"] = cls([self._binning(L, r) for L, r in zip(LL, ri)], fa, errors2=ea, axis_names=self._names(dim))
             elif action == "Construct":
                 LL, ri, batch, weighted = args
                 dim = len(LL)
-                rows = self._rows(batch, dim)
-                w = self._weights(batch, weighted)
+                rows = guard.track(self._rows(batch, dim))
+                w = guard.track(self._weights(batch, weighted))
                 bins = self._bins_arg(LL, ri)
                 sp = self.spelling % 3
                 if dim == 2 and sp == 1:
@@ -103,12 +110,12 @@ class NDAdapter(Adapter):
                 if w == 1 and self.we.den == 1 and self.we.num == 1 and self.we.kind == "pyint" and self.spelling % 2:
                     obs["ret"] = o["h"].fill(x)
                 else:
-                    obs["ret"] = o["h"].fill(np.array(x) if self.spelling % 2 else x, self.we.w(w))
+                    obs["ret"] = o["h"].fill(guard.track(np.array(x)) if self.spelling % 2 else x, self.we.w(w))
             elif action == "FillN":
                 batch, weighted = args
                 dim = o["h"].ndim
-                rows = self._rows(batch, dim)
-                w = self._weights(batch, weighted)
+                rows = guard.track(self._rows(batch, dim))
+                w = guard.track(self._weights(batch, weighted))
                 if self.spelling % 2 and len(batch):
                     obs["ret"] = o["h"].fill_n(rows.T, weights=w, columns=True)
                 else:
@@ -219,6 +226,7 @@ class NDAdapter(Adapter):
             if isinstance(ex, RuntimeError) and str(ex).startswith("unknown action"):
                 raise
             obs["exc"] = f"{type(ex).__name__}: {ex}"
+        obs["inputs_changed"] = guard.changed()
         return o, obs
 
     # -------------------------------------------------------------- compare
@@ -252,7 +260,7 @@ class NDAdapter(Adapter):
                 return feq(got, want)
             w = float(want)
             return abs(float(got) - w) <= 64 * 2.3e-16 * max(abs(w), 1e-300)
-        for fld, attr, val, dd in (("freq", "frequencies", self.we.val, den), ("err2", "errors2", self.we.val2, den * den)):
+        for fld, attr, val, dd in (("freq", "frequencies", self._we.val, den), ("err2", "errors2", self._we.val2, den * den)):
             if fld not in view:
                 continue
             got = np.asarray(getattr(x, attr))
@@ -265,12 +273,12 @@ class NDAdapter(Adapter):
             if not ok:
                 fail(fld, {str(c): str(val(v) / dd) for c, v in rec[fld].items()}, got.tolist())
         if "missed" in view and dim > 1:
-            if not same(x.missed, self.we.val(rec["missed"]) / den):
-                fail("missed", str(self.we.val(rec["missed"]) / den), repr(x.missed))
+            if not same(x.missed, self._we.val(rec["missed"]) / den):
+                fail("missed", str(self._we.val(rec["missed"]) / den), repr(x.missed))
         if "total" in view:
             tot = sum(rec["freq"].values())
-            if not same(x.total, self.we.val(tot) / den):
-                fail("total", str(self.we.val(tot) / den), repr(x.total))
+            if not same(x.total, self._we.val(tot) / den):
+                fail("total", str(self._we.val(tot) / den), repr(x.total))
         if "names" in view:
             want = tuple(f"ax{n}" for n in rec["names"])
             got = tuple(x.axis_names)
@@ -279,6 +287,9 @@ class NDAdapter(Adapter):
 
     def compare(self, real, obs, post, action, args, pre, view) -> Optional[Mismatch]:
         bad, det = [], {}
+        self._we = WEmb(self.we.name, real["K"], 1, self.we.kind) if isinstance(real, dict) and "K" in real else self.we
+        if obs.get("inputs_changed"):
+            bad.append("inputs"); det["inputs"] = obs["inputs_changed"][:2]      # the caller's arrays were overwritten
         if action in REFUSALS:
             if obs["exc"] is None and "refused" in view:
                 bad.append("refused")
